@@ -109,7 +109,7 @@ theorem boxFns_mem_iff (tbl : List (Nat × Nat × Fn)) : (b : FootBox) → FootO
       simp only [List.mem_map] at h
       obtain ⟨cl, hcl, rfl⟩ := h
       rw [idxFns_mem]
-      exact ⟨cl.line, by simp [List.mem_range']; exact (hcalls cl hcl).2, callFn_mem_lineFns st calls cl hcl⟩
+      exact ⟨cl.line, by simp [List.mem_range']; exact hcalls cl hcl, callFn_mem_lineFns st calls cl hcl⟩
     · exact idxFns_sub_calls st calls _ g
   | .block id st kids => by
     intro hok g
@@ -124,20 +124,6 @@ theorem boxFnsList_mem_iff (tbl : List (Nat × Nat × Fn)) : (bs : List FootBox)
     simp only [FootOkList] at hok
     simp only [boxFnsList, eraseList, linesFromKids, List.mem_append, tblFns_append]
     rw [boxFns_mem_iff tbl b hok.1 g, boxFnsList_mem_iff tbl bs hok.2 g]
-end
-
-mutual
-theorem footOk_noBlock (tbl : List (Nat × Nat × Fn)) : (b : FootBox) → FootOk tbl b → NoBlockPolicy b
-  | .para _ _ _ _ calls => by
-    intro h; simp only [FootOk] at h; simp only [NoBlockPolicy]; exact fun c hc => (h.2.2.2.1 c hc).1
-  | .block _ _ kids => by
-    intro h; simp only [FootOk] at h; simp only [NoBlockPolicy]; exact footOkList_noBlock tbl kids h.2
-theorem footOkList_noBlock (tbl : List (Nat × Nat × Fn)) : (bs : List FootBox) → FootOkList tbl bs →
-    NoBlockPolicyList bs
-  | [] => by intro _; simp [NoBlockPolicyList]
-  | b :: bs => by
-    intro h; simp only [FootOkList] at h; simp only [NoBlockPolicyList]
-    exact ⟨footOk_noBlock tbl b h.1, footOkList_noBlock tbl bs h.2⟩
 end
 
 /-! ### state of the children loop -/
@@ -427,18 +413,15 @@ theorem finishBlockF_state (c : FCtx) (id : Nat) (st : PStyle) (kids : List Foot
   | aborted page s =>
     simp only [finishBlockF]
     rw [hc1 page s rfl]
-    exact hall (hab page s rfl) _ (fun g hg => Or.inr hg) (by
-      intro g hg
-      have hpie := hab page s rfl
-      have hsk : skip = none := by
-        cases skip with
-        | none => rfl
-        | some x => have := hskip rfl; rw [hpie] at this; cases this
-      subst hsk
-      simp only [skipIdxOf_none, dropKids]
-      rw [boxFnsList_mem_iff c.tbl kids hok g]
-      have := tblFns_sub c.tbl _ _ hK.sub g hg
-      simpa [FootBox.erase, linesFrom] using this)
+    apply hall (hab page s rfl)
+    · intro g hg
+      simp only [List.mem_append] at hg
+      rcases hg with h | h
+      · left; simpa [outKids, flinesList_eq] using h
+      · exact Or.inr h
+    · intro g hg
+      simp only [List.mem_append]
+      left; simpa [outKids, flinesList_eq] using hg
   | stopped resume s =>
     obtain ⟨hd1, hd2⟩ := hc2 resume s rfl
     simp only [finishBlockF]
